@@ -55,6 +55,15 @@ pub fn feed_all(o: &mut Outcome, t: &str, feats: &[String]) {
     ep!(o, t, feats, "strip_pgp_signature", debian_control::pgp::strip_pgp_signature(t));
     ep!(o, t, feats, "ParsedVcs::from_str", debian_control::vcs::ParsedVcs::from_str(t));
     for n in ["Git", "Bzr", "Hg", "Svn", "Cvs", "Arch"] { ep!(o, t, feats, "Vcs::from_field", debian_control::vcs::Vcs::from_field(n, t)); }
+    // (the name argument is text too: the generated text itself, and near-miss names - prefixes and extensions of the
+    //  known names and of the "Vcs-" field prefix, other case, multi-byte letters at every small offset)
+    ep!(o, t, feats, "Vcs::from_field(name)", debian_control::vcs::Vcs::from_field(t, "https://example.com/r.git -b main [sub]"));
+    if t.len() <= 2 {
+        for n in ["", "V", "Vc", "Vcs", "Vcs-", "Vcs-G", "Vcs-Git", "Vcs\u{e9}", "Vcs\u{e9}x", "Vc\u{e9}", "V\u{e9}", "\u{e9}", "git", "GIT", "Gi", "Git ", " Git", "Git\u{e9}", "G\u{e9}t", "Browser", "Vcs-Browser", "X-Vcs-Git", "Cvs\u{65e5}", "Arch\u{1f600}", "Svn-"] {
+            ep!(o, n, feats, "Vcs::from_field(name)", debian_control::vcs::Vcs::from_field(n, "https://example.com/r.git"));
+            ep!(o, n, feats, "Vcs::from_field(name)", debian_control::vcs::Vcs::from_field(n, t));
+        }
+    }
     ep!(o, t, feats, "parse_identity", debian_control::parse_identity(t));
     ep!(o, t, feats, "Priority::from_str", debian_control::fields::Priority::from_str(t));
     ep!(o, t, feats, "MultiArch::from_str", debian_control::fields::MultiArch::from_str(t));
